@@ -123,8 +123,8 @@ def run(chk, facts):
                    f"{fn['qual']}: `{val}` is emitted after registering its import" if cover is not None else
                    f"{fn['qual']} emits the name `{val}` but no import of it is registered before, on every path that reaches this place, in this function: "
                    "the module can use an unbound name", facts.loc_of(fn))
-    chk.floor("R-C16-1", n_use, 8, "uses of support names in generate::")
-    chk.floor("R-C16-1", n_imp, 9, "import registrations in generate::")
+    chk.floor("R-C16-1", n_use, 6, "uses of support names in generate::")
+    chk.floor("R-C16-1", n_imp, 6, "import registrations in generate::")
 
     # ---------------- R-C16-2 ----------------
     try:
@@ -189,29 +189,43 @@ def run(chk, facts):
                "a filtered or re-ordered import list can drop a needed import", loc)
         chk.ob("R-C16-2", "gen_arguments:single-node", ok23, "a node is returned without a block only when no import was collected" if ok23 else
                f"gen_arguments can return a node without the imports that were collected for it ({bare_unguarded} bare path(s) without an emptiness test, {n_block} block path(s))", loc)
+        # both registration functions are folded over a sequence of registrations (rules/smalleval.py), whatever their shape: every
+        # module and every name is registered once, under its own module
+        from .smalleval import SmallEval, NoEval
         ai = syn.one_fn("add_import", impl_of="Imports")
-        s = src(ai["body"]).replace(" ", "")
-        ok = "if!self.imports.contains(&import){self.imports.push(import)" in s
-        chk.ob("R-C16-2", "add_import:dedup", ok, "add_import pushes only when the import is not present" if ok else "add_import no longer tests `contains` before pushing: duplicates are emitted", facts.loc_of(ai))
         af = syn.one_fn("add_from_import", impl_of="Imports")
-        s = src(af["body"]).replace(" ", "")
-        # one entry per module: the entry is looked up and stored under the module name; a name is appended only when the entry does
-        # not contain it yet (whatever the locals are called, one insert site or two)
-        inserts = [n for n in walk(af["body"]) if n.get("k") == "mcall" and n["m"] == "insert" and src(strip(n["recv"])).replace(" ", "") == "self.from_imports"]
-        keyed = bool(inserts) and all(src(n["args"][0]).replace(" ", "") == "String::from(from)" for n in inserts)
-        dedup = False
-        for n in walk(af["body"]):
-            if n.get("k") == "if":
-                c_ = src(strip(n["c"])).replace(" ", "")
-                m_ = re.fullmatch(r"\(?!(\w+)\.contains\(&(\w+)\)\)?", c_)
-                if m_ and n.get("else") is not None:
-                    new_name = m_.group(2)
-                    from .common import idents_in
-                    if new_name in idents_in(n["then"]) and new_name not in idents_in(n["else"]) and m_.group(1) in idents_in(n["else"]):
-                        dedup = True
-        ok = "self.from_imports.get(&String::from(from))" in s and keyed and dedup
+        local = {f_["name"]: f_ for f_ in syn.fns if f_["mod"] == af["mod"] and f_.get("impl_of") is None and f_.get("body")}
+
+        def names_of(imp_node):
+            lst = imp_node.get("import") if isinstance(imp_node, dict) else None
+            return [x.get("lit") if isinstance(x, dict) else x for x in (lst[1] if isinstance(lst, tuple) and lst[0] == "list" else [])]
+        ok_ai, why_ai = False, ""
+        ok, why_af = False, ""
+        try:
+            ev_i = SmallEval(local_fns=local)
+            st_ = {"__struct__": "Imports", "imports": ("list", []), "from_imports": ("map", {})}
+            for mod_ in ("math", "math", "os", "math"):
+                ev_i.call(ai, [st_, mod_])
+            mods = [names_of(x) for x in st_["imports"][1]]
+            ok_ai = sorted(m_[0] for m_ in mods if m_) == ["math", "os"] and len(mods) == 2
+            why_ai = f"after math, math, os, math the list holds {mods}"
+        except NoEval as ex:
+            why_ai = f"could not be evaluated ({ex})"
+        chk.ob("R-C16-2", "add_import:dedup", ok_ai, "add_import registers a module once" if ok_ai else f"add_import no longer registers each module exactly once: {why_ai}", facts.loc_of(ai))
+        try:
+            ev_f = SmallEval(local_fns=local)
+            st_ = {"__struct__": "Imports", "imports": ("list", []), "from_imports": ("map", {})}
+            for mod_, nm_ in (("typing", "Union"), ("typing", "Optional"), ("abc", "ABC"), ("typing", "Union"), ("typing", "Any"), ("abc", "ABC")):
+                ev_f.call(af, [st_, mod_, nm_])
+            got = {k_: sorted(names_of(v_)) for k_, v_ in st_["from_imports"][1].items()}
+            froms = {k_: (v_.get("from")[1].get("lit") if isinstance(v_.get("from"), tuple) and isinstance(v_["from"][1], dict) else v_.get("from")) for k_, v_ in st_["from_imports"][1].items()}
+            ok = got == {"typing": ["Any", "Optional", "Union"], "abc": ["ABC"]} and froms == {"typing": "typing", "abc": "abc"}
+            why_af = f"after typing.Union, typing.Optional, abc.ABC, typing.Union, typing.Any, abc.ABC the table holds {got} (modules {froms})"
+        except NoEval as ex:
+            why_af = f"could not be evaluated ({ex})"
+        s = ""
         chk.ob("R-C16-2", "add_from_import:dedup", ok, "add_from_import keeps one entry per module and adds a name only when it is new" if ok else
-               "add_from_import changed shape: a module can be imported twice or a name repeated", facts.loc_of(af))
+               f"add_from_import no longer keeps one entry per module with each name once: {why_af}", facts.loc_of(af))
         st = syn.structs.get("generate::convert::state::Imports")
         ok = st is not None and any(n == "from_imports" and t.replace(" ", "").startswith("BTreeMap<String,") for n, t in st["fields"])
         chk.ob("R-C16-2", "from_imports:ordered-map", ok, "from-imports are kept in a BTreeMap keyed by module (one line per module, deterministic order)" if ok else "Imports.from_imports is no longer a BTreeMap keyed by the module")
